@@ -520,6 +520,21 @@ def run(ctx, impl_only=False):
                 ctx.violate(case, 'options %s make DeepDiff raise %s (%s) on inputs it accepts without them' % ('+'.join(combo), type(e).__name__, str(e)[:60]))
             elif not plain and d:
                 ctx.violate(case, 'the plain diff is empty but the diff under %s is not: %s' % ('+'.join(combo), str(d)[:120]))
+    # ---- two NaN objects at one position: ignore_nan_inequality makes them equal, and no second option takes that back
+    for wrap_ in (lambda v: v, lambda v: [1, v], lambda v: {'k': v, 'z': 1}, lambda v: (v, 'x'), lambda v: {'a': {'b': [v, [0]]}}):
+        a, b = wrap_(float('nan')), wrap_(float('nan'))
+        for other in opt_names:
+            if other == 'ignore_nan_inequality':
+                continue
+            kw = dict(OPTIONS['ignore_nan_inequality']); kw.update(OPTIONS[other])
+            case = {'clause': 'monotone/total', 'options': ['ignore_nan_inequality', other], 'x': repr(a), 'y': repr(b), 'zip': False}
+            ctx.evaluations += 1
+            d, e = safe_diff(a, b, **kw)
+            ctx.count('nan_pairs')
+            if e is not None:
+                ctx.violate(case, 'options ignore_nan_inequality+%s make DeepDiff raise %s' % (other, type(e).__name__))
+            elif d:
+                ctx.violate(case, 'two NaN are equal under ignore_nan_inequality, but not together with %s: %s' % (other, str(d)[:120]))
     # ---- correspondence with the option-aware Lean model (values of the PyVal universe)
     if not impl_only:
         model_correspondence(ctx)
